@@ -6,6 +6,7 @@ import (
 	"fmt"
 	ht "html/template"
 	"io"
+	"mime"
 	"os"
 	"path/filepath"
 	"strings"
@@ -375,7 +376,9 @@ func Build(spec *MsgSpec, env *Env) (*Built, error) {
 			if err = os.MkdirAll(dir, 0o755); err != nil {
 				return err
 			}
-			path := filepath.Join(dir, "payload.bin")
+			// the on-disk name has an extension of its own (with a well-known type), so that a type
+			// derived from the source path instead of the declared file name shows
+			path := filepath.Join(dir, "payload.html")
 			if err = os.WriteFile(path, f.Content, 0o644); err != nil {
 				return err
 			}
@@ -387,12 +390,12 @@ func Build(spec *MsgSpec, env *Env) (*Built, error) {
 				m.AttachFile(path, fopts...)
 			}
 		case "iofs":
-			fsys := fstest.MapFS{"payload.bin": &fstest.MapFile{Data: f.Content}}
+			fsys := fstest.MapFS{"payload.json": &fstest.MapFile{Data: f.Content}}
 			fopts = append(fopts, mail.WithFileName(f.Name))
 			if embed {
-				err = m.EmbedFromIOFS("payload.bin", fsys, fopts...)
+				err = m.EmbedFromIOFS("payload.json", fsys, fopts...)
 			} else {
-				err = m.AttachFromIOFS("payload.bin", fsys, fopts...)
+				err = m.AttachFromIOFS("payload.json", fsys, fopts...)
 			}
 		case "texttpl":
 			if embed {
@@ -416,7 +419,16 @@ func Build(spec *MsgSpec, env *Env) (*Built, error) {
 		if err != nil {
 			return err
 		}
-		l := Leaf{MediaType: strings.ToLower(f.CType), CTE: cte, Filename: Sanitize(f.Name), Desc: f.Desc, Content: f.Content}
+		mt := strings.ToLower(f.CType)
+		if mt == "" {
+			// no declared type: the documented behaviour is the type that belongs to the extension of
+			// the file name the caller set (host MIME table), application/octet-stream otherwise
+			mt = "application/octet-stream"
+			if byExt := mime.TypeByExtension(filepath.Ext(f.Name)); byExt != "" {
+				mt = strings.ToLower(strings.TrimSpace(strings.SplitN(byExt, ";", 2)[0]))
+			}
+		}
+		l := Leaf{MediaType: mt, CTE: cte, Filename: Sanitize(f.Name), Desc: f.Desc, Content: f.Content}
 		if embed {
 			l.Kind = "embed"
 			l.Disposition = "inline"
